@@ -32,6 +32,15 @@ def freeze():
     _tl.frozen = _virtual[0] if _virtual[0] is not None else _real_ns()
 
 
+def bump(ns):
+    """Let time pass for the calling thread although it is frozen (an object that is slow to print, say)."""
+    v = getattr(_tl, 'frozen', None)
+    if v is not None:
+        _tl.frozen = v + ns
+    elif _virtual[0] is not None:
+        _virtual[0] += ns
+
+
 def unfreeze():
     _tl.frozen = None
 
